@@ -91,12 +91,7 @@ func (s *metricSchemaStore) genFieldID(id metric.ID, f field.Meta, limits *model
 	s.lock.Lock()
 	defer s.lock.Unlock()
 
-	if schema == nil {
-		// create new schema
-		schema = &metric.Schema{}
-	}
-	// put into schema if schema not exist under mutable store
-	s.mutable.PutIfNotExist(uint32(id), schema)
+	schema = s.schemaForUpdate(id, schema)
 
 	fm, ok := schema.Fields.Find(f.Name)
 	if ok {
@@ -113,6 +108,22 @@ func (s *metricSchemaStore) genFieldID(id metric.ID, f field.Meta, limits *model
 	return fID, nil
 }
 
+// schemaForUpdate returns the schema that is registered for the metric in the mutable store,
+// registering the given one (or a new one) if there is none. Callers hold the write lock.
+func (s *metricSchemaStore) schemaForUpdate(id metric.ID, schema *metric.Schema) *metric.Schema {
+	if stored, ok := s.mutable.Get(uint32(id)); ok && stored != nil {
+		// the lookup ran without the lock, another writer may have registered a schema since:
+		// go on with the registered one, an update of any other object would be lost
+		return stored
+	}
+	if schema == nil {
+		// create new schema
+		schema = &metric.Schema{}
+	}
+	s.mutable.Put(uint32(id), schema)
+	return schema
+}
+
 // genTagKeyID generates tag key id if tag key not exist.
 func (s *metricSchemaStore) genTagKeyID(id metric.ID, tagKey []byte, limits *models.Limits,
 	createFn func() uint32,
@@ -124,12 +135,7 @@ func (s *metricSchemaStore) genTagKeyID(id metric.ID, tagKey []byte, limits *mod
 	s.lock.Lock()
 	defer s.lock.Unlock()
 
-	if schema == nil {
-		// create new schema
-		schema = &metric.Schema{}
-	}
-	// put into schema if schema not exist under mutable store
-	s.mutable.PutIfNotExist(uint32(id), schema)
+	schema = s.schemaForUpdate(id, schema)
 
 	tm, ok := schema.TagKeys.Find(strutil.ByteSlice2String(tagKey))
 	if ok {
